@@ -93,6 +93,9 @@ def main():
             if fast:
                 env["VERIF_NO_MINIMISE"] = "1"
             rc, out = run([os.path.join(ROOT, "bin", "verif"), "check", c, "--tier", tier], ROOT, timeout=7200, env=env)
+            if rc == 2 and regress:
+                # on a loaded machine a watchdog may fire: one more try before the trouble is recorded
+                rc, out = run([os.path.join(ROOT, "bin", "verif"), "check", c, "--tier", tier], ROOT, timeout=7200, env=env)
             lines = [l for l in out.splitlines() if l.startswith(("VIOLATION", "TROUBLE", "OK ", "KNOWN-FINDING", "  class="))]
             res["checks"][c] = {"exit": rc, "lines": lines[:12], "wall_s": round(time.time() - t0)}
             # replay files written for the patched tree are kept with the seeded change
